@@ -51,6 +51,23 @@ type target struct {
 	name    string // "Type.Method" or "Func"
 }
 
+// groupOf says which bridge a listed function belongs to; `go2lean <repo> <out> <groups>` translates only the listed
+// groups (and, on demand, what they call), so that a construct the translator refuses in one package does not take
+// the tie away from the properties about another
+func groupOf(t target) string {
+	switch {
+	case t.pkgPath == "pkg/descriptor":
+		return "signal"
+	case t.pkgPath == "pkg/socketcan" || t.name == "Frame.Validate":
+		return "frame"
+	case t.pkgPath == "pkg/dbc":
+		return "msgid"
+	case t.pkgPath == "pkg/candevice":
+		return "netlink"
+	}
+	return "data"
+}
+
 // the functions translated; the order is the order of the output (callees first)
 var targets = []target{
 	{"internal/reinterpret", "AsSigned"},
@@ -816,8 +833,16 @@ func (c *ctx) call(x *ast.CallExpr, en *env, wantValue bool) string {
 			}
 		}
 		if id, ok := se.X.(*ast.Ident); ok {
-			if pn, ok := c.p.info.Uses[id].(*types.PkgName); ok && pn.Imported().Path() == "math/bits" && se.Sel.Name == "ReverseBytes64" {
-				return "(bswap64 " + c.expr(x.Args[0], en) + ")"
+			if pn, ok := c.p.info.Uses[id].(*types.PkgName); ok && pn.Imported().Path() == "math/bits" {
+				switch se.Sel.Name {
+				case "ReverseBytes64":
+					return "(bswap64 " + c.expr(x.Args[0], en) + ")"
+				case "ReverseBytes32":
+					return "(bswapN 4 " + c.expr(x.Args[0], en) + ")"
+				case "ReverseBytes16":
+					return "(bswapN 2 " + c.expr(x.Args[0], en) + ")"
+				}
+				refuse("math/bits.%s", se.Sel.Name)
 			}
 		}
 	}
@@ -1290,10 +1315,70 @@ func (c *ctx) stmts(list []ast.Stmt, k []func(*env, *out), en *env, o *out, mode
 	case *ast.ForStmt:
 		c.forLoop(x, cont, k, en, o, mode)
 		return
+	case *ast.RangeStmt:
+		c.rangeLoop(x, cont, k, en, o, mode)
+		return
 	default:
 		refuse("statement %T at %s", s, c.p.fset.Position(s.Pos()))
 	}
 	cont(en, o)
+}
+
+// rangeLoop unrolls `for i := range N` (constant N <= 64) and `for i[, v] := range a` over an [8]byte
+func (c *ctx) rangeLoop(x *ast.RangeStmt, cont func(*env, *out), k []func(*env, *out), en *env, o *out, mode string) {
+	if x.Tok != token.DEFINE && x.Key != nil {
+		refuse("range loop that assigns to existing variables")
+	}
+	ast.Inspect(x.Body, func(n ast.Node) bool {
+		if y, ok := n.(*ast.BranchStmt); ok {
+			refuse("range loop: %s", y.Tok)
+		}
+		return true
+	})
+	var n int64
+	var arr ast.Expr
+	if cv := c.p.info.Types[x.X].Value; cv != nil {
+		n, _ = constant.Int64Val(constant.ToInt(cv))
+	} else if t := ltype(c.typeOf(x.X)); t.kind == "arr" {
+		n, arr = 8, x.X
+	} else {
+		refuse("range over %s", c.typeOf(x.X))
+	}
+	if n < 0 || n > 64 {
+		refuse("range loop: more than 64 iterations")
+	}
+	var keyObj, valObj types.Object
+	if id, ok := x.Key.(*ast.Ident); ok && id.Name != "_" {
+		keyObj = c.p.info.Defs[id]
+	}
+	if id, ok := x.Value.(*ast.Ident); ok && id.Name != "_" {
+		valObj = c.p.info.Defs[id]
+	}
+	if valObj != nil && arr == nil {
+		refuse("range value without an array")
+	}
+	// the array is evaluated once, before the loop
+	arrVal := ""
+	if arr != nil {
+		arrVal = c.ev(arr, en, o)
+	}
+	var iter func(i int64) func(*env, *out)
+	iter = func(i int64) func(*env, *out) {
+		return func(en *env, o *out) {
+			if i >= n {
+				cont(en, o)
+				return
+			}
+			if keyObj != nil {
+				en.vars[keyObj] = lit(big.NewInt(i), ltype(keyObj.Type()).w)
+			}
+			if valObj != nil {
+				en.vars[valObj] = fmt.Sprintf("(getByte %s %d#64)", arrVal, i)
+			}
+			c.stmts(x.Body.List, append([]func(*env, *out){iter(i + 1)}, k...), en, o, mode)
+		}
+	}
+	iter(0)(en, o)
 }
 
 const generalUnroll = 16
@@ -1921,9 +2006,15 @@ def bswap64 (x : BitVec 64) : BitVec 64 :=
 `
 
 func main() {
-	if len(os.Args) != 3 {
-		fmt.Fprintln(os.Stderr, "usage: go2lean <repo> <out.lean>")
+	if len(os.Args) != 3 && len(os.Args) != 4 {
+		fmt.Fprintln(os.Stderr, "usage: go2lean <repo> <out.lean> [group,group,...]   groups: data frame signal msgid netlink")
 		os.Exit(2)
+	}
+	want := map[string]bool{}
+	if len(os.Args) == 4 {
+		for _, g := range strings.Split(os.Args[3], ",") {
+			want[g] = true
+		}
 	}
 	repo, err := filepath.Abs(os.Args[1])
 	if err != nil {
@@ -1946,6 +2037,9 @@ func main() {
 			}
 		}()
 		for _, tg := range targets {
+			if len(want) > 0 && !want[groupOf(tg)] {
+				continue
+			}
 			func() {
 				defer func() {
 					if r := recover(); r != nil {
